@@ -100,6 +100,10 @@ theorem propsFold_ss (f : C → Nat → Nat → C) (hf : ∀ c id v, SS c (f c i
 @[simp] theorem psSubUnsub_ss (c : C) (p : Pkt) : SS c (psSubUnsub c p) := by
   unfold psSubUnsub; store_tac
 
+@[simp] theorem releasePacketId_ss (c : C) (id : Nat) : SS c (releasePacketId c id) :=
+  releasePacketId_ind (Q := fun c' => SS c c') c id (releaseIfUsed_ss c id) (fun h => h)
+    (fun h => (decSendCount_ss _).trans h)
+
 theorem releaseAll_ss (l : List Nat) : ∀ c, SS c (releaseAll c l) := by
   induction l with
   | nil => intro c; rfl
@@ -411,9 +415,69 @@ theorem step_kn {cfg : Cfg} {s : St} (h : KN s.store) (op : Op) : KN (step cfg s
   | setRespTimeout ms => exact h
   | acquire => exact h
   | register id => exact h
-  | release id => simp only [step, releasePacketId, releaseIfUsed_ss]; exact h
+  | release id => simp only [step, releasePacketId_ss]; exact h
   | erase id => exact eraseStoredPublish_kn (c := { cfg := cfg, s := s }) h id
   | restoreHandled ids => exact h
   | restorePackets ps => exact restorePackets_kn ps { cfg := cfg, s := s } h
+
+/-! ## `release_packet_id` (fix ba1a812): the exact effect, and the ownership invariant -/
+
+theorem releasePacketId_unused {c : C} {id : Nat} (hu : isUsed c.s id = false) : releasePacketId c id = c := by
+  rw [releasePacketId_def, hu]; rfl
+
+/-- the counter after `release id`: one less if the identifier was awaited by PUBACK / PUBREC
+    (`decSendCount`: only under a Receive Maximum, never below zero) -/
+def countAfterRelease (s : St) (id : Nat) : Nat :=
+  if (id ∈ s.puback ∨ id ∈ s.pubrec) ∧ s.sendMax.isSome = true ∧ s.sendCount > 0 then s.sendCount - 1 else s.sendCount
+
+theorem releasePacketId_used {c : C} (h : Wf c) {id : Nat} (hu : isUsed c.s id = true) :
+    releasePacketId c id =
+      ({ c with s := { c.s with pidMan := (Alloc.deallocate c.s.pidMan id).2, suback := del id c.s.suback, unsuback := del id c.s.unsuback, puback := del id c.s.puback, pubrec := del id c.s.pubrec, sendCount := countAfterRelease c.s id } } : C).push (.released id) := by
+  rw [releasePacketId_def, if_pos hu, releaseIfUsed_used h hu]
+  unfold countAfterRelease
+  by_cases ha : id ∈ c.s.puback ∨ id ∈ c.s.pubrec
+  · rw [if_pos (by exact ha)]
+    by_cases hc : c.s.sendMax.isSome = true ∧ c.s.sendCount > 0
+    · rw [if_pos ⟨ha, hc⟩]
+      unfold decSendCount
+      rw [if_pos (by exact hc)]
+      rfl
+    · rw [if_neg (fun x => hc x.2)]
+      unfold decSendCount
+      rw [if_neg (by exact hc)]
+      rfl
+  · rw [if_neg (by exact ha), if_neg (fun x => ha x.1)]
+    rfl
+
+theorem mem_del' {x a : Nat} {l : List Nat} : x ∈ del a l ↔ (x ∈ l ∧ x ≠ a) := by simp [del]
+
+/-- `release id` keeps the ownership invariant when `id` is not awaited by PUBCOMP and carried by
+    no stored packet -/
+theorem releasePacketId_inv {c : C} (h : Wf c) (i : PidInv c.s) {id : Nat} (hpc : id ∉ c.s.pubcomp)
+    (hst : storeHas id c.s.store = false) : PidInv (releasePacketId c id).s := by
+  cases hu : isUsed c.s id with
+  | false => rw [releasePacketId_unused hu]; exact i
+  | true =>
+    rw [releasePacketId_used h hu]
+    obtain ⟨i1, i2, i3⟩ := i
+    have d3 := (h.2.w.dealloc hu).2.2
+    have keep : ∀ x, x ≠ id → isUsed c.s x = true →
+        Alloc.isUsed (Alloc.deallocate c.s.pidMan id).2 x = true := fun x hx hux => (d3 x).2 ⟨hux, hx⟩
+    have hne : ∀ x ∈ c.s.store, x.1 ≠ id := by
+      simpa only [storeHas, List.any_eq_false, decide_eq_true_eq] using hst
+    refine ⟨?_, ?_, i3⟩
+    · intro x hx
+      simp only [waitIds, push_s, List.mem_append, mem_del'] at hx
+      have hx' : x ∈ waitIds c.s ∧ x ≠ id := by
+        simp only [waitIds, List.mem_append]
+        rcases hx with (((hx | hx) | hx) | hx) | hx
+        · exact ⟨.inl (.inl (.inl (.inl hx.1))), hx.2⟩
+        · exact ⟨.inl (.inl (.inl (.inr hx.1))), hx.2⟩
+        · exact ⟨.inl (.inl (.inr hx.1)), hx.2⟩
+        · exact ⟨.inl (.inr hx.1), hx.2⟩
+        · exact ⟨.inr hx, fun e => hpc (e ▸ hx)⟩
+      exact keep x hx'.2 (i1 x hx'.1)
+    · intro x hx
+      exact keep x.1 (hne x hx) (i2 x hx)
 
 end MqttVerif.Conn
